@@ -429,6 +429,11 @@ def run(ctx, report):
     ea_ = ctx.mod('eval_abs')
     parity_rule(R7, ea_, ctx.mod('expr_helper'), ea_.methods('eval_abs'))
 
+    # ---------------------------------------------------------------- D8 the copies the simplifier edits are real copies
+    R8 = report.rule('C05.D8', 'copy() of every node class builds a new node from copied fields: merge_sliceto_slice edits the start/stop of a copy, which must not be the caller\'s node', floor=8)
+    from .c15 import copy_visit_rule
+    copy_visit_rule(ctx, R8, only='copy')
+
 
 def size_table_rule(R, hlp, fns):
     """Every `tab_size_int[K]` of the simplifier: K must be the width of something known to be a constant (dominating isinstance(.., ExprInt) on the
@@ -512,4 +517,5 @@ MUTANTS = [
     ('unwrap-minus', 'miasmx/expression/expression_helper.py', "if op in op_assoc + ['>>', '<<', '<<<', '>>>'] and len(args) == 1 :",
      "if op in op_assoc + ['-', '>>', '<<', '<<<', '>>>'] and len(args) == 1 :", 'C05.D2'),
     ('fold-guard-extra', 'miasmx/expression/expression_helper.py', "if op in op_assoc + ['>>', '<<']:", "if op in op_assoc + ['>>', '<<', 'a>>']:", 'C05.D1'),
+    ('slice-copy-removed', 'miasmx/expression/expression.py', "    def copy(self):\n        return ExprSlice(self.arg.copy(), self.start, self.stop)\n", "", 'C05.D8'),
 ]
